@@ -98,7 +98,9 @@ inline void plant_format_bytes(std::vector<uint8_t>& c) {
 		std::string("\r\n\r\n\x1a", 5), std::string(12, '\0'), std::string(12, '\xff'), std::string("PBMP\x00\x00\x00\x00head", 12), std::string("BM\x36\x04\x00\x00", 6), std::string("CPAL\x01\x00\x00\x00PPAL", 12)};
 	const std::string& a = pats[c[1] % pats.size()]; const std::string& b = pats[c[2] % pats.size()];
 	unsigned where = c[3] & 3;   // 0 start, 1 end, 2 both, 3 a long run of one value in the middle
-	if (where == 3) { size_t n = std::min<size_t>(c.size() - 2, 3 + size_t(c[4]) * 17 % 5000); uint8_t v = (c[5] & 1) ? 0x20 : c[5]; std::fill(c.begin() + 1, c.begin() + 1 + long(n), v); return; }
+	if (where == 3) { size_t n = std::min<size_t>(c.size() - 2, 3 + size_t(c[4]) * 17 % 5000); uint8_t v = (c[5] & 1) ? 0x20 : (c[5] & 2) ? 0x00 : c[5];
+		if (c[6] & 1) { n = std::min<size_t>(c.size() - 1, 4096 + size_t(c[4]) * 64); std::fill(c.end() - long(n), c.end(), v); }   // ... or a block of one value (zeros among them) that runs to the END of the payload
+		else std::fill(c.begin() + 1, c.begin() + 1 + long(n), v); return; }
 	if (where != 1) std::copy(a.begin(), a.begin() + long(std::min(a.size(), c.size())), c.begin());
 	if (where != 0 && c.size() >= b.size()) std::copy(b.begin(), b.end(), c.end() - long(b.size()));
 }
